@@ -86,11 +86,11 @@ def run(ctx):
     mc(ctx)
     q = ctx.quick
     if q:
-        jobs = [("c18", ["--mode", "random", "--n", 300], "random.ndjson")]
+        jobs = [("c18", ["--mode", "random", "--n", 240], "random.ndjson")]
     else:
         jobs = [("c18", ["--mode", "random", "--n", 3000, "--salt", k], "random%d.ndjson" % k) for k in range(4)]
     paths = ctx.record_many(jobs, parallel=4)
-    validate(ctx, paths, 6 if q else 4)
+    validate(ctx, paths, 4)
     ctx.extra["generator_bounds"] = {"functions_per_program": "1..3", "blocks_per_function": "0..6",
                                      "instructions_per_block": "0..3 (+ Block::append of another block)",
                                      "addresses": "6 per parity class, about a quarter of the instructions without address",
